@@ -1,7 +1,7 @@
 #!/venv/bin/python
 """Confirms a sub-agent's seeded change independently and files it under /verif/seeded/.
 
-usage: verify_seed.py <PROP> <k> [--src /tmp/seed_out]
+usage: verify_seed.py <PROP> <k> [--src /tmp/seed_out] [--from DIR] [--base COMMIT] [extra props]
 
 Steps (all in a fresh scratch worktree of /repo under /tmp, removed afterwards):
   1. demo on the unchanged tree must exit 0;
@@ -23,6 +23,8 @@ src = "/tmp/seed_out"
 if "--src" in sys.argv:
     src = sys.argv[sys.argv.index("--src") + 1]
 d = f"{src}/{prop}/{k}"
+if "--from" in sys.argv:  # deliverables of a later wave: --from /tmp/seed_out/C01b/1 filed as <PROP>_<k>
+    d = sys.argv[sys.argv.index("--from") + 1]
 wt = f"/tmp/vs_{prop}_{k}_{os.getpid()}"
 PY = "/venv/bin/python"
 
